@@ -82,3 +82,4 @@ def pytest_sessionfinish(session, exitstatus):
         _seen["evals"] = dict(contracts.EVALS)
         with open(out, "w") as f:
             json.dump(_seen, f)
+
